@@ -7,6 +7,14 @@ CHECKS = {
    technique="runtime monitoring: byte-wise output monitor against an independent reference renderer over exhaustive small forests + seeded random forests",
    text="Every labeled ordered forest up to 5 (quick) / 7 (thorough) nodes over a 2-letter alphabet, in 6-30 spellings, 6 branch-string tuples and 3 code paths, plus 20k/400k seeded random forests over hostile name alphabets, is rendered by the real library and compared byte for byte with an independent top-down renderer. Held-on-what-was-executed, complete below the size bound.",
    note="Trusted: the reference renderer (model/model.go, ~60 lines, top-down with explicit last-child flags) and the speller. Names are valid UTF-8, one line, not blank-only."),
+ "C02": dict(level="exploration", design="DESIGN.md §4 C02",
+   technique="runtime monitoring: malformation injector with known class/row + completeness monitor (decoded outputs vs model) over simple, non-iterator and massive paths",
+   text="Every labeled forest up to 5/6 nodes in 5 bullet-root spellings is run well-formed (must be accepted and complete in text, JSON, YAML, TOML, dry-run and walk; simple, non-iterator and massive) and with one injected malformed line of each class M1-M6 at every line position (must be rejected, format errors must name the row); plus 5k/100k random larger documents with one injection.",
+   note="Trusted: the injector's notion of 'unambiguously malformed' (DESIGN §4 C02 soundness notes); massive-mode rejections are only required to be non-nil for M3 (unit learnt from whichever block is parsed first)."),
+ "C12": dict(level="exploration", design="DESIGN.md §4 C12",
+   technique="runtime monitoring: crash-contained worker processes with journal-before-call, recover, goroutine deadlock monitor, hostile input generators",
+   text="Degenerate, blank-only, size-extreme, grammar-mutated and raw byte inputs (8.7k quick / 320k thorough) and programmatic trees with hostile names go through every entry point in simple and massive mode; a panic in any goroutine (worker death attributed via the journal), a recovered panic, a deadlock, or a blank-only input giving output or an error is a violation.",
+   note="Hang = all gtree goroutines blocked with unchanged ids in two observations 300 ms apart; a 120 s watchdog firing while goroutines are active is inconclusive. Termination is decided only on the executions run."),
 }
 PENDING = {}
 ids = [json.loads(l)["id"] for l in open("/verif/properties.jsonl")]
